@@ -2,7 +2,7 @@
    Only pinned statements, `exact <lemma>` and Print Assumptions live here.
    K ranges over every key system (key decoding, peer-id derivation, peer-id parsing, symbolic
    reading of signature strings); `now` over every clock reading. *)
-From Coq Require Import List NArith Bool.
+From Coq Require Import List NArith ZArith Bool.
 From V Require Import lib.Strs lib.Serde lib.Msgpack lib.SymSig gen.Consts model.Quote proofs.Msgpack proofs.Quote.
 Import ListNotations.
 Open Scope N_scope.
@@ -172,3 +172,17 @@ Theorem bad_needs_three_strikes : forall clk bn p k,
   peer_is_bad bn p = false -> peer_is_bad (record_node_issue clk bn p k) p = true ->
   exists iv, bn_lookup p (record_node_issue clk bn p k) = Some (iv, true) /\ three_strikes iv = true.
 Proof. exact bad_needs_three_strikes_lemma. Qed.
+
+(* ---- timestamps at and before the epoch ---- *)
+Theorem pre_epoch_never_accepted : forall K q (tz : Z) p, (tz < 0)%Z -> check_signed_z K q tz p <> Some true.
+Proof. exact pre_epoch_never_accepted_lemma. Qed.
+
+Theorem check_signed_z_nonneg : forall K q (tz : Z) p,
+  (0 <= tz)%Z -> check_signed_z K q tz p = Some (check_signed K (with_timestamp q (Z.to_N tz)) p).
+Proof. exact check_signed_z_nonneg_lemma. Qed.
+
+Theorem signing_z_injective : forall q1 q2 (tz1 tz2 : Z) m,
+  wf_quote (with_timestamp q1 (Z.to_N tz1)) = true -> wf_quote (with_timestamp q2 (Z.to_N tz2)) = true ->
+  bytes_for_signing_z q1 tz1 = Some m -> bytes_for_signing_z q2 tz2 = Some m ->
+  (0 <= tz1)%Z /\ (0 <= tz2)%Z /\ secs (Z.to_N tz1) = secs (Z.to_N tz2).
+Proof. exact signing_z_injective_lemma. Qed.
